@@ -73,22 +73,22 @@ Definition unhexd (c : N) : option N :=
   else if (65 <=? c) && (c <=? 70) then Some (c - 55)
   else if (97 <=? c) && (c <=? 102) then Some (c - 87)
   else None.
-Fixpoint form_decode_fuel (fuel : nat) (s : bytes) : bytes :=
-  match fuel with
-  | O => []
-  | S f =>
-      match s with
-      | [] => []
-      | 43 :: r => 32 :: form_decode_fuel f r
-      | 37 :: h1 :: h2 :: r =>
-          match unhexd h1, unhexd h2 with
-          | Some a, Some b => (a * 16 + b) :: form_decode_fuel f r
-          | _, _ => 37 :: form_decode_fuel f (h1 :: h2 :: r)
-          end
-      | c :: r => c :: form_decode_fuel f r
-      end
+Fixpoint form_decode (s : bytes) : bytes :=
+  match s with
+  | [] => []
+  | c :: tl =>
+      if c =? 43 then 32 :: form_decode tl
+      else if c =? 37 then
+        match tl with
+        | h1 :: h2 :: r =>
+            match unhexd h1, unhexd h2 with
+            | Some a, Some b => (a * 16 + b) :: form_decode r
+            | _, _ => 37 :: form_decode tl
+            end
+        | _ => 37 :: form_decode tl
+        end
+      else c :: form_decode tl
   end.
-Definition form_decode (s : bytes) : bytes := form_decode_fuel (S (length s)) s.
 
 (* the raw (still encoded) key/value pairs of a query string *)
 Definition query_pairs (q : bytes) : list (bytes * bytes) :=
